@@ -23,6 +23,16 @@
 (*                    master is unchanged (the old replica list stays):    *)
 (*                    FALSE in the code; TRUE must violate BoundedRounds / *)
 (*                    TriggerKept / Converges under REPLICA and BOTH       *)
+(* The periodic refresh: in every iteration the loop also waits for a timer *)
+(* of one refresh period (time.After(slotsRefFreq)).  It is the only thing  *)
+(* that heals a SILENT layout change - one after which no request raises a  *)
+(* trigger (the old master's address still accepts connections and closes   *)
+(* them at once: "backend exited", no dial error, no redirection).           *)
+(*   RearmOnlyAfterTrigger - the timer is one object that only a triggered   *)
+(*                    refresh re-arms (FALSE in the code: a new timer in      *)
+(*                    every iteration); TRUE must violate TimerArmed /        *)
+(*                    Converges: after a quiet period the periodic refresh    *)
+(*                    is gone                                                 *)
 (*   DrainOnSuccess - a successful refresh empties the trigger channel     *)
 (*                    ("the fresh table satisfies whoever asked            *)
 (*                    meanwhile"): FALSE in the code; TRUE must violate    *)
@@ -34,6 +44,7 @@ CONSTANTS MaxLayout,      \* layouts are numbered 0..MaxLayout; a layout change 
           MaxFailures,    \* refresh attempts that may fail
           DrainOnSuccess,
           SkipUnchanged,
+          RearmOnlyAfterTrigger,
           Strategy        \* read strategy: "MASTER" | "REPLICA" | "BOTH"
 
 VARIABLES layout,         \* current layout of the cluster: <<master assignment, replica assignment>> (version numbers)
@@ -44,9 +55,11 @@ VARIABLES layout,         \* current layout of the cluster: <<master assignment,
           quit,
           rounds,         \* successful refresh rounds since the layout last changed
           failures,
-          noticed         \* a request has met the stale table since the layout last changed (and has asked for a refresh)
+          noticed,        \* a request has met the stale table since the layout last changed (and has asked for a refresh)
+          timer,          \* the periodic timer of the iteration: "armed" | "off"
+          silent          \* the last layout change raises no trigger (requests fail with "backend exited" or are still served)
 
-vars == <<layout, table, trig, loop, seen, quit, rounds, failures, noticed>>
+vars == <<layout, table, trig, loop, seen, quit, rounds, failures, noticed, timer, silent>>
 
 \* what routing depends on: the master assignment, and for reads from replicas the replica assignment
 Same(a, b) == a[1] = b[1] /\ (Strategy = "MASTER" \/ a[2] = b[2])
@@ -54,52 +67,62 @@ Stale == ~Same(table, layout)
 
 Init ==
   /\ layout = <<0, 0>> /\ table = <<0, 0>> /\ trig = FALSE /\ loop = "wait" /\ seen = <<0, 0>> /\ quit = FALSE
-  /\ rounds = 0 /\ failures = 0 /\ noticed = FALSE
+  /\ rounds = 0 /\ failures = 0 /\ noticed = FALSE /\ timer = "armed" /\ silent = FALSE
 
 (* environment: slots move to another master (migration finished, failover) / a replica moves to another master *)
 (* or is replaced while the master stays                                                                          *)
 LayoutChange(k) ==
   /\ layout[1] + layout[2] < MaxLayout /\ rounds' = 0 /\ noticed' = FALSE
-  /\ \/ k = "master" /\ layout' = <<layout[1] + 1, layout[2]>>
-     \/ k = "replica" /\ Strategy # "MASTER" /\ layout' = <<layout[1], layout[2] + 1>>
-  /\ UNCHANGED <<table, trig, loop, seen, quit, failures>>
+  /\ \/ k = "master" /\ layout' = <<layout[1] + 1, layout[2]>> /\ silent' = FALSE
+     \/ k = "replica" /\ Strategy # "MASTER" /\ layout' = <<layout[1], layout[2] + 1>> /\ silent' = FALSE
+     \/ k = "silent" /\ layout' = <<layout[1] + 1, layout[2]>> /\ silent' = TRUE
+  /\ UNCHANGED <<table, trig, loop, seen, quit, failures, timer>>
 
 (* a request routed by the stale table is redirected (handleRedirection), cannot connect to a master that *)
 (* has left (MakeRequestToHost) or is told CLUSTERDOWN: triggerSlotsRefresh (non-blocking send: a token   *)
 (* that is already there is kept)                                                                          *)
 Redirect ==
-  /\ Stale /\ ~quit
+  /\ Stale /\ ~silent /\ ~quit
   /\ trig' = TRUE /\ noticed' = TRUE
-  /\ UNCHANGED <<layout, table, loop, seen, quit, rounds, failures>>
+  /\ UNCHANGED <<layout, table, loop, seen, quit, rounds, failures, timer, silent>>
 
-(* loopRefreshSlots: select {quit | period | trigger}; the periodic timer is not modelled (it only adds triggers) *)
+(* loopRefreshSlots: select {quit | period | trigger} *)
 LoopTake ==
   /\ loop = "wait"
-  /\ \/ quit /\ loop' = "exited" /\ UNCHANGED <<trig, seen>>
+  /\ \/ quit /\ loop' = "exited" /\ UNCHANGED <<trig, seen, timer>>
      \/ ~quit /\ trig /\ trig' = FALSE /\ loop' = "asking" /\ seen' = layout   \* the node answers with the layout it has now
-  /\ UNCHANGED <<layout, table, quit, rounds, failures, noticed>>
+        /\ timer' = "armed"                                                      \* (the next iteration waits with a timer again)
+  /\ UNCHANGED <<layout, table, quit, rounds, failures, noticed, silent>>
+
+(* the period elapses while the loop waits: a refresh nobody asked for.  The next iteration has a timer again - unless *)
+(* the timer is an object that only the trigger branch re-arms                                                          *)
+LoopTick ==
+  /\ loop = "wait" /\ ~quit /\ timer = "armed"
+  /\ loop' = "asking" /\ seen' = layout
+  /\ timer' = IF RearmOnlyAfterTrigger THEN "off" ELSE "armed"
+  /\ UNCHANGED <<layout, table, trig, quit, rounds, failures, noticed, silent>>
 
 (* doSlotsRefresh returns: success -> the table becomes what the node reported (master and replicas of every slot); *)
 (* failure -> trigger again                                                                                         *)
 LoopRefreshed ==
   /\ loop = "asking"
   /\ \/ /\ table' = IF SkipUnchanged /\ table[1] = seen[1] THEN table ELSE seen
-        /\ rounds' = rounds + 1 /\ UNCHANGED failures
+        /\ rounds' = (IF rounds < 3 THEN rounds + 1 ELSE rounds) /\ UNCHANGED failures
         /\ trig' = IF DrainOnSuccess THEN FALSE ELSE trig
      \/ /\ failures < MaxFailures /\ failures' = failures + 1 /\ trig' = TRUE /\ UNCHANGED <<table, rounds>>
   /\ loop' = "sleep"
-  /\ UNCHANGED <<layout, seen, quit, noticed>>
+  /\ UNCHANGED <<layout, seen, quit, noticed, timer, silent>>
 
 (* the minimum interval elapses, or quit *)
 LoopWake ==
   /\ loop = "sleep"
   /\ loop' = IF quit THEN "exited" ELSE "wait"
-  /\ UNCHANGED <<layout, table, trig, seen, quit, rounds, failures, noticed>>
+  /\ UNCHANGED <<layout, table, trig, seen, quit, rounds, failures, noticed, timer, silent>>
 
-Quit == ~quit /\ quit' = TRUE /\ UNCHANGED <<layout, table, trig, loop, seen, rounds, failures, noticed>>
+Quit == ~quit /\ quit' = TRUE /\ UNCHANGED <<layout, table, trig, loop, seen, rounds, failures, noticed, timer, silent>>
 
-LoopNext == LoopTake \/ LoopRefreshed \/ LoopWake
-Next == LoopNext \/ (\E k \in {"master", "replica"} : LayoutChange(k)) \/ Redirect \/ Quit
+LoopNext == LoopTake \/ LoopTick \/ LoopRefreshed \/ LoopWake
+Next == LoopNext \/ (\E k \in {"master", "replica", "silent"} : LayoutChange(k)) \/ Redirect \/ Quit
 \* traffic keeps coming: while the table is stale some request is redirected
 Spec == Init /\ [][Next]_vars /\ WF_vars(LoopNext) /\ WF_vars(Redirect)
 
@@ -120,6 +143,11 @@ TriggerKept == (noticed /\ Stale /\ ~quit) => (trig \/ (loop = "asking" /\ Same(
 \* the window (must be reachable): a trigger raised while a refresh that has seen an older layout is in flight
 W_TriggerDuringStaleRefresh == loop = "asking" /\ ~Same(seen, layout) /\ trig /\ noticed
 NoWindow == ~W_TriggerDuringStaleRefresh
+\* the idle loop always has its periodic timer: the safety net for layout changes no request notices
+TimerArmed == (loop = "wait" /\ ~quit) => timer = "armed"
+\* the window (must be reachable): a silent change while the loop idles after a refresh that the timer started
+W_SilentChange == silent /\ Stale /\ loop = "wait" /\ ~trig
+NoSilentChange == ~W_SilentChange
 \* the window (must be reachable under REPLICA / BOTH): only the replica assignment of the table is stale
 W_ReplicaStale == table[1] = layout[1] /\ table[2] # layout[2] /\ Stale
 NoReplicaStale == ~W_ReplicaStale
